@@ -3,7 +3,8 @@ From Coq Require Import ZArith List Bool Lia.
 Require Import Rig.Model.Base Rig.Model.BitField Rig.Spec.BitField.
 Require Export Rig.Proofs.BitFieldBits Rig.Proofs.BitFieldTree Rig.Proofs.BitFieldAssign
                Rig.Proofs.BitFieldAdd Rig.Proofs.BitFieldKeys Rig.Proofs.BitFieldCheck
-               Rig.Proofs.BitFieldReach Rig.Proofs.BitFieldComplete Rig.Proofs.BitFieldRefute.
+               Rig.Proofs.BitFieldReach Rig.Proofs.BitFieldComplete Rig.Proofs.BitFieldRefute
+               Rig.Proofs.BitFieldTags Rig.Proofs.BitFieldPack.
 Import ListNotations.
 Open Scope Z_scope.
 
@@ -125,4 +126,41 @@ Proof.
   split; [discriminate|]. split.
   - intros i f Hin. vm_compute in Hin. destruct Hin as [Hin|[Hin|[]]]; inversion Hin; subst; reflexivity.
   - intros fv. vm_compute. discriminate.
+Qed.
+
+Lemma assign_complete_exclusive_reachable st :
+  reachable st -> exclusive_children (s_tree st) = true ->
+  unpositioned (s_tree st) (s_store st) ->
+  widths_fit (s_len st) (s_tree st) (s_store st) ->
+  exists st', assign_fields st = (st', None).
+Proof. intros R. apply assign_complete_exclusive. now apply reachable_inv. Qed.
+
+(* a three-level hierarchy whose scopes are opened by one field per node, filled to the last bit *)
+Definition ex_chain_ops : list op :=
+  [OpAdd 0 0 (Some 2) None []; OpCall 0 [(0, 0)]; OpCall 0 [(0, 1)];
+   OpAdd 1 1 (Some 3) None []; OpAdd 2 2 None None []; OpCall 2 [(2, 1)]; OpAdd 3 3 (Some 2) None []].
+
+Lemma ex_exclusive_instance :
+  exists st, reachable st /\ exclusive_children (s_tree st) = true /\ t_children (s_tree st) <> []
+    /\ unpositioned (s_tree st) (s_store st) /\ widths_fit (s_len st) (s_tree st) (s_store st)
+    /\ s_len st = 5.
+Proof.
+  exists (exec (init 5) ex_chain_ops).
+  split; [apply exec_reachable, reach_init|]. split; [vm_compute; reflexivity|].
+  split; [vm_compute; discriminate|]. split; [|split; [|vm_compute; reflexivity]].
+  - intros i f Hin. vm_compute in Hin.
+    repeat (destruct Hin as [Hin|Hin]; [inversion Hin; subst; reflexivity|]). destruct Hin.
+  - intros fv.
+    assert (Et : s_tree (exec (init 5) ex_chain_ops) =
+                 Node [(0, 0%nat)] [([(0, 0)], Node [(1, 1%nat)] []);
+                                    ([(0, 1)], Node [(2, 2%nat)] [([(2, 1)], Node [(3, 3%nat)] [])])])
+      by (vm_compute; reflexivity).
+    assert (Es : s_store (exec (init 5) ex_chain_ops) =
+                 [mkField (Some 2) None [] 1; mkField (Some 3) None [] 1; mkField None None [] 1;
+                  mkField (Some 2) None [] 1]) by (vm_compute; reflexivity).
+    rewrite Et, Es. cbn [enabled_fields flat_map app]. unfold req_enabled. cbn [forallb fst snd].
+    destruct (zassoc 0 fv) as [a|]; destruct (zassoc 2 fv) as [b|];
+      repeat match goal with
+             | |- context [?x =? ?y] => destruct (Z.eqb_spec x y)
+             end; cbn; try lia.
 Qed.
